@@ -1,8 +1,11 @@
 #!/bin/bash
-# thorough tier of every check, sequentially; logs in /tmp/thorough_<id>.log
-cd /verif
+# thorough tier of the given checks (default: all), sequentially, from the directory this script lives in;
+# logs in ${HSV_LOG_DIR:-/var/tmp/hsv}/thorough_<id>.log
+cd "$(dirname "$0")/.."
+L=${HSV_LOG_DIR:-/var/tmp/hsv}; mkdir -p $L
+[ $# -eq 0 ] && set -- C01 C02 C03 C04 C05 C06 C09 C10 C11 C13 C14 C15 C17 C18 C19 C20 C08 C12 C07 C16
 for c in "$@"; do
   s=$(date +%s)
-  ./check $c --tier thorough > /tmp/thorough_$c.log 2>&1; rc=$?
-  echo "$c rc=$rc $(( $(date +%s) - s ))s viol=$(grep -c '^VIOLATION' /tmp/thorough_$c.log) known=$(grep -c '^KNOWN' /tmp/thorough_$c.log)"
+  ./check $c --tier thorough > $L/thorough_$c.log 2>&1; rc=$?
+  echo "$c rc=$rc $(( $(date +%s) - s ))s viol=$(grep -c '^VIOLATION' $L/thorough_$c.log) known=$(grep -c '^KNOWN' $L/thorough_$c.log)"
 done
